@@ -99,6 +99,10 @@ def strategy(tier):
                                'kind': st.sampled_from(['emit', 'send']),
                                'data': st.just('d'), 'cb': st.just(True)}),
         st.fixed_dictionaries({'op': st.just('sdisc_all')}),
+        # ... all at once: each DISCONNECT packet is dispatched while the
+        # disconnect handler of an earlier one is still running (engine.io
+        # gives every message a thread / task of its own)
+        st.fixed_dictionaries({'op': st.just('sdisc_all_overlap')}),
         # the server ends one namespace and the connection ends at once (one
         # read: DISCONNECT packet + engine.io CLOSE), or the transport is
         # lost while the application's disconnect handler of that namespace
@@ -179,6 +183,7 @@ def _run(case, h):
     dcount = {}
 
     app_disc = {'on': False, 'done': False}
+    nested_frames = []
 
     def rec(kind, ns):
         if kind == 'disconnect':
@@ -187,6 +192,12 @@ def _run(case, h):
                 if app_disc['on'] and not app_disc['done'] and not aio:
                     app_disc['done'] = True
                     sio.disconnect()
+                if nested_frames:
+                    # "another thread" delivers the next packets meanwhile
+                    todo = nested_frames[:]
+                    del nested_frames[:]
+                    for f_ in todo:
+                        h.deliver(f_)
                 n = dcount.get(ns, 0)
                 dcount[ns] = n + 1
                 if dfault and NSS[dfault['ns']] == ns and n == dfault['k']:
@@ -646,6 +657,36 @@ def _run(case, h):
                 labels['disconnect_packet_overlaps_the_end'] = True
                 if case.get('disc_yields'):
                     labels['nontrivial'] = True
+                probe(k)
+                continue
+            if k == 'sdisc_all_overlap':
+                if model['partial'] or len(model['accepted']) < 2:
+                    continue
+                frames = []
+                for ns in list(model['accepted']):
+                    frames += wire.frames(wire.DISCONNECT, ns)
+                if aio:
+                    from engineio import packet as ep
+                    yield_on[0] = True
+                    for f in frames:
+                        h.loop.spawn(h.eio._receive_packet(
+                            ep.Packet(ep.MESSAGE, f)))
+                    h.loop.run_until_idle()
+                    yield_on[0] = False
+                else:
+                    nested_frames[:] = frames[1:]
+                    h.deliver(frames[0])
+                    for f in nested_frames[:]:
+                        h.deliver(f)
+                    del nested_frames[:]
+                end_model()
+                faulted[0] = True
+                expect_disconnects(nlog, was, 'server DISCONNECT of every '
+                                   'namespace, overlapping')
+                check_ended('after overlapping server DISCONNECTs')
+                check_state('after overlapping server DISCONNECTs')
+                labels['server_disconnects_overlap'] = True
+                labels['nontrivial'] = True
                 probe(k)
                 continue
             if k == 'sdisc_all':
